@@ -226,6 +226,11 @@ def R3_accessors(run):
             # on every successful path
             run.ok("R3", "unconditional@" + path, detail="setter written in place; the store is decided in the handlers (C11.R2)")
             continue
+        if fn is None and path == "state::whirlpool::Whirlpool::reset_protocol_fees_owed":
+            # the two-store reset written into the two collection handlers: C06.R5 demands it there (after both transfers, once) and
+            # forbids it anywhere else
+            run.ok("R3", "unconditional@" + path, detail="reset written in place; decided in the handlers (C06.R5)")
+            continue
         if fn is None:
             run.missing("R3", "unconditional@" + path, "function %s not found" % path)
             continue
